@@ -615,20 +615,19 @@ def trusted_base(prop):
 
 def partial_clauses(prop):
     return [
-        "no single theorem `guards -> prop_C05 k i (run k i) = true`: proved are its clauses for add_path_to_tree, "
-        "add_rows (the loop of every entry point), list_to_tree, dict_to_tree, frame_to_tree (Props/C05.v); prop_C05 itself "
-        "is evaluated on every implementation output by the correspondence",
-        "attribute exactness is proved per add_path_to_tree call (C05_attrs_exact), not as the fold over all rows of a "
-        "constructor; null dropping of the DataFrame/polars variants (filter_attributes) and the duplicate-attribute check "
-        "are modelled and compared by the correspondence only",
-        "C05_no_dup_names, 'same tree as with duplicates allowed': under the guard that the tree's separator is one "
-        "character occurring in no node name and no path component (the code compares joined path strings); the "
-        "distinctness half (C05_no_dup_distinct) is unguarded",
-        "C05_leading_trailing_sep / C05_sep_independent / C05_parse_agrees: single-character separators only "
-        "(multi-character separators: known finding K3-C05, Example C05_multichar_sep_refuted)",
-        "'a well-formed input is accepted' is proved for duplicate_name_allowed=True (C05_add_path_accepts); for False only "
-        "checked through prop_C05 (accepted iff all names of the closure are distinct)",
-        "add_{dict,dataframe,polars}_to_tree_by_name (not path-based) have no theorem; they are modelled and compared",
+        "C05_model_satisfies_prop_partial (prop_C05 k i (run k i) = true, the predicate evaluated on every implementation "
+        "output, accepted and refused inputs, either duplicate_name_allowed): proved for list_to_tree, dict_to_tree, "
+        "add_path_to_tree, add_dict_to_tree_by_path under the guard: single-character path separator; existing tree's attribute "
+        "dicts have distinct keys; with duplicates disallowed the tree's own separator is a single character.  Not covered by "
+        "the umbrella theorem: the DataFrame/polars entry points (their clauses are C05_frame_to_tree_closure, C05_attrs_frame, "
+        "C05_attrs_frame_nulls, C05_attrs_rows_exact, C05_accept_verdict; duplicate-attribute detection and the frame glue are "
+        "compared by the correspondence only) and the boolean prop_byname (the by-name entry points have the Prop-level "
+        "theorems C05_by_name_exact / _dict / _frame / _frame_rows)",
+        "C05_no_dup_accept_iff, direction 'accepted => same as with duplicates allowed': under the guard that the tree's "
+        "separator is one character occurring in no node name and no path component (the code compares joined path strings); "
+        "the converse (C05_no_dup_accepts_distinct) and C05_no_dup_distinct are unguarded",
+        "C05_leading_trailing_sep / C05_sep_independent / C05_parse_agrees and the umbrella theorem: single-character "
+        "separators only (multi-character separators: known finding K3-C05, Example C05_multichar_sep_refuted)",
     ]
 
 
